@@ -508,6 +508,55 @@ func (cr *c16Repo) round(name string, fromZero bool, fault *gitlabsim.Fault) c16
 	return out
 }
 
+// roundsSameBridge runs n imports from zero, one after the other, on ONE core.Bridge over ONE cache, the way a
+// long-lived process that imports periodically does (the importer object and whatever it remembers live on between
+// the imports). The repository is dumped after each import.
+func (cr *c16Repo) roundsSameBridge(name string, n int) []c16Round {
+	var outs []c16Round
+	fail := func(msg string) []c16Round {
+		return append(outs, c16Round{Name: name, Events: map[string]int{}, StartErr: msg})
+	}
+	rep, err := world.OpenRepo(cr.dir, cr.kr, bug.ClockLoader)
+	if err != nil {
+		return fail("open: " + err.Error())
+	}
+	c, err := cache.NewRepoCacheNoEvents(rep.Repo)
+	if err != nil {
+		return fail("cache: " + err.Error())
+	}
+	defer c.Close()
+	b, err := bridge.LoadBridge(c, c16Bridge)
+	if err != nil {
+		return fail("load bridge: " + err.Error())
+	}
+	for k := 1; k <= n; k++ {
+		out := c16Round{Name: fmt.Sprintf("%s#%d", name, k), Events: map[string]int{}}
+		out.CursorBefore = cr.cursor()
+		cr.srv.T.BeginRound(nil)
+		ch, err := b.ImportAllSince(context.Background(), time.Time{})
+		if err != nil {
+			out.StartErr = "import: " + err.Error()
+		} else {
+			for ev := range ch {
+				out.Events[c16EventNames[ev.Event]]++
+				if ev.Event == core.ImportEventError {
+					msg := "<nil>"
+					if ev.Err != nil {
+						msg = ev.Err.Error()
+					}
+					out.Errors = append(out.Errors, msg)
+					out.ErrorIDs = append(out.ErrorIDs, ev.EntityId.String())
+				}
+			}
+		}
+		out.Log = cr.srv.T.EndRound()
+		out.CursorAfter = cr.cursor()
+		out.Dump = c16DumpRepo(cr.dir, cr.kr)
+		outs = append(outs, out)
+	}
+	return outs
+}
+
 // ---- oracles --------------------------------------------------------------------
 
 // c16Skeleton drops control (Cc), format (Cf) and white-space characters: the
@@ -1398,6 +1447,19 @@ func c16RunCase(c c16Case) (res c16Result) {
 		o1 := B.round("one-shot-import-of-grown-tracker", false, nil)
 		c16CheckRound(&res, o1, "", "")
 		c16GroundTruth(&res, t, o1)
+
+		// a process that lives on: one bridge object imports the tracker into a new repository, then imports it again
+		if L := newRepo(); L != nil {
+			ls := L.roundsSameBridge("long-lived-bridge-import", 2)
+			for _, lr := range ls {
+				c16CheckRound(&res, lr, "", "")
+			}
+			if len(ls) == 2 && ls[0].StartErr == "" && ls[1].StartErr == "" {
+				res.count("imports_repeated_on_one_bridge_object", 1)
+				c16GroundTruth(&res, t, ls[0])
+				c16Idempotent(&res, ls[0], ls[1], c16AnyCollision(t))
+			}
+		}
 		res.CleanImports = len(r1.Errors) == 0 && len(o1.Errors) == 0 && r1.StartErr == "" && o1.StartErr == ""
 		c16CleanRunErrors(&res, t, o1, "one-shot import of a healthy tracker into an empty repository")
 		c16SameCompiled(&res, t, "incremental-vs-one-shot", "incremental import (base, growth) vs one-shot import into an empty repository", r4, o1, nil)
